@@ -32,6 +32,10 @@ pub enum Op {
   EqTwin,
   /// equality with ONE second, equal tree that all threads share (false: tree == other, true: other == tree)
   EqShared(bool),
+  /// equality with ONE second tree that all threads share and that differs from the tree by one edit
+  /// (`Program::near`; false: tree == near, true: near == tree)
+  #[serde(alias = "EqNear")]
+  EqNear(bool),
 }
 
 #[derive(Clone, Debug, Serialize, Deserialize)]
@@ -42,6 +46,14 @@ pub struct Program {
   /// ReplaceSource but the last), so its ReplaceSources have been observed, mutated again and only then shared
   #[serde(default)]
   pub warm: Option<u8>,
+  /// selects the edit (edit::all_edits) that makes the operand of `EqNear`
+  #[serde(default)]
+  pub near: u16,
+}
+
+/// the tree after one edit (the tree itself if it offers none)
+fn near_spec(p: &Program) -> Spec {
+  crate::edit::pick_edit(crate::edit::all_edits(&p.tree, true), p.near).map(|e| e.result).unwrap_or_else(|| p.tree.clone())
 }
 
 fn build_shared(p: &Program) -> BoxSource {
@@ -147,13 +159,14 @@ fn op() -> BoxedStrategy<Op> {
     1 => any::<bool>().prop_map(Op::CloneMap),
     1 => Just(Op::EqTwin),
     2 => any::<bool>().prop_map(Op::EqShared),
+    2 => any::<bool>().prop_map(Op::EqNear),
   ]
   .boxed()
 }
 
 fn program() -> BoxedStrategy<Program> {
-  (shared_tree(), vec(vec(op(), 1..=3), 2..=3), prop_oneof![2 => Just(None), 1 => (0u8..4u8).prop_map(Some)])
-    .prop_map(|(tree, threads, warm)| Program { tree, threads, warm })
+  (shared_tree(), vec(vec(op(), 1..=3), 2..=3), prop_oneof![2 => Just(None), 1 => (0u8..4u8).prop_map(Some)], any::<u16>())
+    .prop_map(|(tree, threads, warm, near)| Program { tree, threads, warm, near })
     .boxed()
 }
 
@@ -187,6 +200,7 @@ fn execute_parallel(p: &Program) -> Result<Vec<Vec<Answer>>, String> {
   let (done_tx, done_rx) = std::sync::mpsc::channel::<usize>();
   // a second, equal tree shared by all threads (operand of EqShared)
   let other: BoxSource = build_shared(p);
+  let near: BoxSource = build(&near_spec(p));
   POOL.with(|pool| {
     let mut pool = pool.borrow_mut();
     if pool.is_none() {
@@ -194,8 +208,8 @@ fn execute_parallel(p: &Program) -> Result<Vec<Vec<Answer>>, String> {
     }
     let pool = pool.as_ref().unwrap();
     for (tid, ops) in p.threads.iter().enumerate() {
-      let (tree, other, text, answers, ops, spec, done_tx, barrier, ktids) =
-        (tree.clone(), other.clone(), text.clone(), answers.clone(), ops.clone(), p.tree.clone(), done_tx.clone(), barrier.clone(), ktids.clone());
+      let (tree, other, near, text, answers, ops, spec, done_tx, barrier, ktids) =
+        (tree.clone(), other.clone(), near.clone(), text.clone(), answers.clone(), ops.clone(), p.tree.clone(), done_tx.clone(), barrier.clone(), ktids.clone());
       let job: Job = Box::new(move || {
         let mut keep: Vec<Retained> = vec![];
         ktids.lock().unwrap()[tid] = std::fs::read_link("/proc/thread-self")
@@ -206,7 +220,7 @@ fn execute_parallel(p: &Program) -> Result<Vec<Vec<Answer>>, String> {
         barrier.wait();
         let mut mine = vec![];
         for op in ops {
-          mine.push(run_op(&tree, &other, &spec, &text, op, &mut keep));
+          mine.push(run_op(&tree, &other, &near, &spec, &text, op, &mut keep));
         }
         for k in &keep {
           if let Err(e) = k.verify() {
@@ -340,7 +354,7 @@ fn identity(m: &Option<rspack_sources::SourceMap>) -> usize {
   m.as_ref().map_or(0, |m| m.mappings().as_ptr() as usize)
 }
 
-fn run_op<'a>(tree: &'a BoxSource, other: &BoxSource, spec: &Spec, text: &str, op: Op, keep: &mut Vec<Retained<'a>>) -> Answer {
+fn run_op<'a>(tree: &'a BoxSource, other: &BoxSource, near: &BoxSource, spec: &Spec, text: &str, op: Op, keep: &mut Vec<Retained<'a>>) -> Answer {
   let r = guard(|| match op {
     Op::Source => Answer::Text(tree.source().to_string()),
     Op::Size => Answer::Size(tree.size()),
@@ -350,7 +364,12 @@ fn run_op<'a>(tree: &'a BoxSource, other: &BoxSource, spec: &Spec, text: &str, o
       Answer::MapAttr(attr_from_map(m.as_ref(), text, c).unwrap_or_else(|e| vec![Some((e, None, 0, 0, None))]))
     }
     Op::Stream(c) => stream_answer(&**tree, c, keep),
-    Op::Hash => Answer::Hash(hash_of(&**tree)),
+    Op::Hash => {
+      // the operand of EqNear is hashed too (its answer is of no interest here), so that both sides of that
+      // comparison can have been hashed by the time it runs
+      let _ = hash_of(&**near);
+      Answer::Hash(hash_of(&**tree))
+    }
     Op::CloneSource => {
       let cl = dyn_clone::clone_box(&**tree);
       Answer::Text(cl.source().to_string())
@@ -362,6 +381,7 @@ fn run_op<'a>(tree: &'a BoxSource, other: &BoxSource, spec: &Spec, text: &str, o
     }
     Op::EqTwin => Answer::Eq(**tree == *build(spec)),
     Op::EqShared(rev) => Answer::Eq(if rev { **other == **tree } else { **tree == **other }),
+    Op::EqNear(rev) => Answer::Eq(if rev { **near == **tree } else { **tree == **near }),
   });
   r.unwrap_or_else(Answer::Panic)
 }
@@ -381,6 +401,7 @@ fn coarse(a: &Answer) -> Answer {
 /// the same operation on a fresh twin, single-threaded, no scheduler
 fn expected(p: &Program) -> Vec<Vec<Answer>> {
   let text = model_text(&p.tree);
+  let near = near_spec(p);
   p.threads
     .iter()
     .map(|ops| {
@@ -389,8 +410,9 @@ fn expected(p: &Program) -> Vec<Vec<Answer>> {
         .map(|op| {
           let twin = build(&p.tree);
           let twin_other = build(&p.tree);
+          let twin_near = build(&near);
           let mut keep = vec![];
-          run_op(&twin, &twin_other, &p.tree, &text, *op, &mut keep)
+          run_op(&twin, &twin_other, &twin_near, &p.tree, &text, *op, &mut keep)
         })
         .collect()
     })
@@ -452,6 +474,7 @@ pub fn execute(p: &Program, schedule: &[u8], max_preemptions: u32) -> RunOut {
   let identities: Arc<Mutex<Vec<(bool, usize)>>> = Arc::new(Mutex::new(vec![]));
   let (done_tx, done_rx) = std::sync::mpsc::channel::<usize>();
   let other: BoxSource = build_shared(p);
+  let near: BoxSource = build(&near_spec(p));
   let pool_ok = POOL.with(|pool| {
     let mut pool = pool.borrow_mut();
     if pool.is_none() {
@@ -459,8 +482,8 @@ pub fn execute(p: &Program, schedule: &[u8], max_preemptions: u32) -> RunOut {
     }
     let pool = pool.as_ref().unwrap();
     for (tid, ops) in p.threads.iter().enumerate() {
-      let (sched, tree, other, text, answers, retained_err, ops, spec, done_tx, identities) =
-        (sched.clone(), tree.clone(), other.clone(), text.clone(), answers.clone(), retained_err.clone(), ops.clone(), p.tree.clone(), done_tx.clone(), identities.clone());
+      let (sched, tree, other, near, text, answers, retained_err, ops, spec, done_tx, identities) =
+        (sched.clone(), tree.clone(), other.clone(), near.clone(), text.clone(), answers.clone(), retained_err.clone(), ops.clone(), p.tree.clone(), done_tx.clone(), identities.clone());
       let job: Job = Box::new(move || {
         IDENTITIES.with(|i| i.borrow_mut().clear());
         install_hook(&sched, tid);
@@ -469,7 +492,7 @@ pub fn execute(p: &Program, schedule: &[u8], max_preemptions: u32) -> RunOut {
         for op in ops {
           // operation boundary: a schedule point of its own
           sched.point(tid, rspack_sources::verif::Event::Access, "op", 0, false, false);
-          let a = run_op(&tree, &other, &spec, &text, op, &mut keep);
+          let a = run_op(&tree, &other, &near, &spec, &text, op, &mut keep);
           answers.lock().unwrap()[tid].push(a);
         }
         remove_hook();
